@@ -77,7 +77,7 @@ type failure struct {
 // ---- pointers ----
 
 // SplitPointer decodes an RFC 6901 pointer. ok=false means the text is outside
-// the domain (no leading '/', empty token, bad ~ escape).
+// the domain (no leading '/', bad ~ escape).
 func SplitPointer(p string) (toks []string, ok bool) {
 	if p == "" {
 		return nil, true
@@ -86,9 +86,7 @@ func SplitPointer(p string) (toks []string, ok bool) {
 		return nil, false
 	}
 	for _, t := range strings.Split(p[1:], "/") {
-		if t == "" {
-			return nil, false
-		}
+		// an empty token is an ordinary reference token (the member named "")
 		var sb strings.Builder
 		for i := 0; i < len(t); i++ {
 			if t[i] == '~' {
